@@ -139,7 +139,7 @@ def shard_header(ctx, arg):
                 struct.pack_into("<I", b, 40, tag)
                 attempt(ctx, dex, mon, fixed(b), "wrong-endian-tag", "a buffer with a wrong endian tag is not rejected", {"file": fi, "tag": "%08x" % tag})
                 ctx.sig("endian", tag & 0xFF)
-            for hs in [0, 0x6F, 0x71, 0x74, 0x170, 0x7000, 0xFFFFFFFF, 0x70000000] + [rng.getrandbits(32) for _ in range(10)]:
+            for hs in list(range(0, 0x201)) + [0x7000, 0xFFFFFFFF, 0x70000000, len(data), len(data) - 4] + [rng.getrandbits(32) for _ in range(10)]:
                 if hs == 0x70:
                     continue
                 b = bytearray(data)
@@ -166,7 +166,7 @@ def run(ctx):
         ctx.inconclusive("could not generate 5 small DEX files")
         return
     ctx.rule = ("5 generated DEX files of 200-760 bytes: every offset >= 12 x (3 other byte values in quick / all 255 in thorough); with the checksum re-fixed: wrong magic bytes "
-                "0-3 and 7, wrong endian tags (incl. the byte-swapped constant), wrong header sizes; wrong checksum alone; non-DEX buffers. Monitor: MapList.__init__ and "
+                "0-3 and 7, wrong endian tags (incl. the byte-swapped constant), wrong header sizes (every value 0..0x200 except 0x70, huge and random ones); wrong checksum alone; non-DEX buffers. Monitor: MapList.__init__ and "
                 "the single-byte sweep repeated on the same files with the tolerated magic spellings 'dey\\n036', 'dex\\n099', 'dey\\n013'. MapItem.parse call counters must be 0 whenever DEX() raises. distinct non-trivial = distinct (file, offset) / (field, value class)")
     ctx.assumptions = ["the three version digits of the magic and magic[2]=='y' (ODEX) are tolerated by design and not generated as 'wrong'"]
     args = []
